@@ -479,6 +479,7 @@ def run_unit(unit, scratch):
                     note="; ".join(sorted(set(kinds))),
                     failed_checks=[{"description": m_} for m_ in msgs],
                     verifier_output=extract_fn_errors(errtxt, fm),
+                    witness_hint={"source": fm["source"], "text": "\n".join(open(path).read().split("\n")[fm["first_line"] - 1 : fm["last_line"]])},
                 )
             else:
                 base.update(status="undecided", note="; ".join(soft)[:300])
